@@ -63,6 +63,7 @@ fn m_record(variant: u8, x: &Enr) -> Option<Enr> {
                     1 => util::enr4(&k, 1, m_addr()),
                     2 => util::enr4(&k, 9, m_addr()),
                     3 => util::enr4(&k, 9, x.udp4_socket().unwrap().into()), // X's address
+                    6 => util::enr4(&k, 0, m_addr()),                        // older than the record V's application knows
                     _ => util::enr(&k, &util::EnrSpec { seq: 9, ..Default::default() }), // no address
                 }
             })
@@ -255,7 +256,7 @@ impl Driver for Attack {
                                 w.proved.insert((claim.raw(), addr.socket_addr));
                                 // a genuine handshake of M carrying one of its own records: the PING
                                 // enclosed in it must reach V's application in this very step
-                                if (1..=4).contains(&rec) {
+                                if (1..=4).contains(&rec) || rec == 6 {
                                     w.scratch.push(("expect-request".into(), addr.socket_addr.to_string().into_bytes()));
                                 }
                             }
@@ -480,7 +481,7 @@ pub fn configs(thorough: bool) -> Vec<(String, HCfg)> {
 }
 
 pub fn driver(thorough: bool) -> Attack {
-    Attack { handshake_records: if thorough { vec![0, 1, 2, 3, 4, 5] } else { vec![0, 1, 2, 3, 5] }, handshake_sigs: if thorough { vec![0, 1, 2, 3] } else { vec![0, 1, 2] }, replays: true, ways: true, msgs: true, halves: thorough }
+    Attack { handshake_records: if thorough { vec![0, 1, 2, 3, 4, 5, 6] } else { vec![0, 1, 2, 3, 5, 6] }, handshake_sigs: if thorough { vec![0, 1, 2, 3] } else { vec![0, 1, 2] }, replays: true, ways: true, msgs: true, halves: thorough }
 }
 
 pub fn regression_holds(payload: &serde_json::Value, prop: &str) -> bool {
